@@ -72,6 +72,29 @@ def seipdv2(ctx, P):
     for u in users:
         if 'encryptor' not in u and 'decryptor' not in u:
             ctx.functions.discard(u)
+    # RFC 9580 5.13.2: the plaintext is cut into chunks and "a final, zero-octet chunk" carries only the final tag.  A data chunk is
+    # never empty: the encryptor must not run a 0-octet read through the chunk encryption (that emits a stray 16-octet chunk and
+    # advances the chunk index, so the final tag is computed for index k+1 - another stream than the RFC one for payloads that end
+    # on a chunk boundary).  The chunk encryption is dominated by a direct test of the read count against 0.
+    from rules import panics
+    from rules.common import direct_cmp_switches
+    eb = ctx.body('crypto::aead::encryptor::StreamEncryptor::<R>::fill_buffer')
+    if eb is not None:
+        pulls = eb.calls(r'util::fill_buffer$|io::Read::read$')
+        cp = set()
+        for i, t in pulls:
+            cp |= panics.copies_of(eb, t['d']['l'])
+        after = eb.reach_from([t['t'] for i, t in pulls if t['t'] is not None]) if pulls else set()
+        sinks = [i for i, t in eb.calls(r'AeadAlgorithm::encrypt_in_place$') if i in after]
+        can = eb.can_reach(set(sinks))
+        guards = []
+        for g, op, side in direct_cmp_switches(eb, lambda k, v: k == 'place' and 'l' in v and v['l'] in cp, lambda c: c == 0):
+            if any(j not in can for j, _ in eb.succ(g)):
+                guards.append(g)
+        ok, wit = must_pass(eb, sinks, guards, start=eb.blocks[pulls[0][0]]['t']['t']) if (sinks and pulls) else (False, None)
+        ctx.check(P + ':seipdv2:no-empty-data-chunk', 'R-dom', 'the SEIPDv2 encryptor encrypts a chunk only after testing that the read delivered octets (a 0-octet read leads to the final tag, not to an empty chunk)',
+                  ok and bool(guards), function=eb.path, site=site(eb, sinks[0]) if sinks else None, witness=fmt_path(eb, wit) if wit else None,
+                  missing=None if (ok and guards) else 'no direct `read == 0` test between the read and the chunk encryption: a payload that ends on a chunk boundary gets an extra empty chunk')
 
 
 RFC_KEY_SIZE = {'Plaintext': 0, 'IDEA': 16, 'TripleDES': 24, 'CAST5': 16, 'Blowfish': 16, 'AES128': 16, 'AES192': 24, 'AES256': 32, 'Twofish': 32,
